@@ -532,10 +532,10 @@ def a_lost_connection_can_be_made_again():
     check(len(loop.unhandled) == 0, "nothing reached the loop's exception handler")
 
 
-@harness(("C07", "C09"), cases=[(k,) for k in (2, 3)], quick=lambda k: k <= 2, budget_s=3600, stubs=STUBS)
+@harness(("C07", "C09"), cases=[(2,)], budget_s=3600, stubs=STUBS)
 def a_second_caller_arrives_at_any_moment(k):
     """Caller A's command is under way; a second caller B (another command) calls send_cmd at ANY moment
-    among k outside events -- A's echo / reply arrive, the running timer expires, A's caller times out --
+    among k = 2 outside events -- A's echo / reply arrive, A's running timer expires, A's caller times out --
     e.g. in the very loop iteration in which A's timeout has cancelled A's future but A has not yet run.
     B's device is responsive: once B's command has been transmitted its echo and its reply arrive.  Then:
     B is transmitted exactly once and gets the reply to ITS command; A gets a packet of its own or a
@@ -567,6 +567,8 @@ def a_second_caller_arrives_at_any_moment(k):
             lt = ctx._expiry_timer
             if lt is None or not lt.sleeping or lt.is_cancelled:
                 assume(False)
+            if any(c is b for c in ghost("sent")):
+                assume(False)  # B's device is responsive: B's own timers do not fire before its echo / reply arrive
             lt.sleeping = False
             loop.ready.append(("wake", lt))
         elif ev == "a_times_out":
